@@ -1,6 +1,6 @@
 """C20: successful unsafe requests invalidate cached responses (end to end through the real squid)."""
-import concurrent.futures, json, random, re, urllib.parse
-from vlib import std, lab, common
+import concurrent.futures, json, os, random, re, urllib.parse
+from vlib import std, lab, common, hbuild, recipes, coq, corr
 
 PID = "C20"
 META = {
@@ -278,6 +278,130 @@ def nontrivial(s, o):
     return o.startswith("ok") and (s.get("loc") is not None or s.get("cloc") is not None)
 
 
+# ------------------------------------------------------------------ unit-level correspondence (string / URI helpers)
+def extract_same_url_hosts():
+    """sameUrlHosts is file-static in src/clients/Client.cc (a unit that cannot be linked into a small harness):
+    its text is cut out of the working tree's Client.cc and compiled into harness/h_purge.cc"""
+    src = open(os.path.join(common.REPO, "src", "clients", "Client.cc"), encoding="utf-8", errors="replace").read()
+    m = re.search(r"^static bool\s*\nsameUrlHosts\(const char \*url1, const char \*url2\)\s*\n\{.*?^\}\n", src, re.S | re.M)
+    if not m:
+        raise hbuild.BuildError("static bool sameUrlHosts(const char *url1, const char *url2) not found in src/clients/Client.cc")
+    txt = "// cut out of src/clients/Client.cc by checks/c20.py -- do not edit\n#include <cstring>\n" + m.group(0)
+    d = os.path.join(common.BUILD, "gen_src")
+    os.makedirs(d, exist_ok=True)
+    path = os.path.join(d, "purge_sameUrlHosts_%s.inc" % common.sha(txt)[:12])
+    if not os.path.exists(path):
+        tmp = path + ".tmp%d" % os.getpid()
+        with open(tmp, "w") as f:
+            f.write(txt)
+        os.replace(tmp, path)
+    return path
+
+
+def build_unit():
+    inc = extract_same_url_hosts()
+    return hbuild.build("h_purge", "h_purge.cc", fresh=["src/anyp/Host.cc", "src/anyp/UriScheme.cc"], link=recipes.URL,
+                        flags=['-DPURGE_EXTRACT="%s"' % inc], sanitize="ubsan")
+
+
+def prebuild():
+    build_unit()
+
+
+U_SCHEMES = ["http", "http", "https", "HTTP", "ftp", "x", "", "urn", "a.b+c"]
+U_SEPS = ["://", "://", "://", ":", ":/", ":///", "//", ""]
+U_AUTHS = ["h", "h:8", "h:80", "H:8", "h.example:8", "127.0.0.1:3128", "localhost:3128", "", "u@h:8", "[::1]:8", "h:", "hh", "h:81"]
+U_PATHS = ["", "/", "/p", "/p/q", "/p/q:r", "//x", "/p?q=/r", "/p#f", "?q", "#f"]
+U_REFS = ["v", "/v", "", "./v", "../v", "../../v", "//h:8/v", "v w", "v#f", "/d/v#f", "/d/./v", "d/v", "v/", "/", "?q", "#f", "a:b",
+          "http://h:8/d/v", "HTTP://h:8/d/v", "x/y:z", "/\xe9t\xe9", "v\x7f", "%41", "/a b\tc", "mailto:x@y", ":", "::", "/:"]
+U_BASEPATHS = ["/", "/a", "/a/b", "/a/b/", "", "/a/b/c.html", "/a?x/y", "/a b/c"]
+U_FRONTS = ["http://h:8", "http://h", "http://127.0.0.1:3128", "http://h.example:8080"]
+
+
+def _mutate_text(rng, t):
+    if not t or rng.random() < 0.5:
+        return t
+    i = rng.randrange(len(t))
+    k = rng.random()
+    if k < 0.35: return t[:i] + t[i + 1:]
+    if k < 0.7: return t[:i] + rng.choice("/:@#?.hH8 ") + t[i:]
+    return t[:i] + rng.choice("/:@#?.hH8") + t[i + 1:]
+
+
+def gen_unit_cases(rng, n):
+    out = []
+    for k in range(n):
+        r = k % 4
+        if r == 0:
+            def url():
+                return rng.choice(U_SCHEMES) + rng.choice(U_SEPS) + rng.choice(U_AUTHS) + rng.choice(U_PATHS)
+            a = url()
+            b = url() if rng.random() < 0.6 else a.split("://")[0] + "://" + a.split("://", 1)[-1].split("/")[0] + rng.choice(U_PATHS)
+            if rng.random() < 0.3: b = _mutate_text(rng, b)
+            if rng.random() < 0.15: a = _mutate_text(rng, a)
+            out.append("purge.samehost %s %s" % (hexs(a), hexs(b)))
+        elif r == 1:
+            t = rng.choice(U_REFS) if rng.random() < 0.5 else rng.choice(U_SCHEMES) + rng.choice(U_SEPS) + rng.choice(U_AUTHS) + rng.choice(U_PATHS)
+            out.append("purge.isrel %s" % hexs(_mutate_text(rng, t)))
+        elif r == 2:
+            if rng.random() < 0.5:
+                t = "".join(chr(rng.randrange(1, 256)) for _ in range(rng.randrange(0, 12)))
+            else:
+                t = _mutate_text(rng, rng.choice(U_REFS + U_BASEPATHS))
+            out.append("purge.encode %s" % hexs(t))
+        else:
+            ref = rng.choice(U_REFS)
+            if rng.random() < 0.3: ref = _mutate_text(rng, ref)
+            out.append("purge.resolve %s %s %s %d" % (hexs(rng.choice(U_FRONTS)), hexs(rng.choice(U_BASEPATHS)), hexs(ref), rng.randrange(2)))
+    return out
+
+
+def unit_oracle(case, out):
+    """the part of the property visible at this level: two scheme://authority/path URLs with byte-identical non-empty
+    authority are 'same host' (so that the named URL is purged)"""
+    w = case.split()
+    if w[0] != "purge.samehost":
+        return None
+    a = bytes.fromhex(w[1]).decode("latin1") if w[1] != "-" else ""
+    b = bytes.fromhex(w[2]).decode("latin1") if w[2] != "-" else ""
+    ma = re.match(r"^([^:/?#]*)://([^/]+)/", a)
+    mb = re.match(r"^([^:/?#]*)://([^/]+)/", b)
+    if ma and mb and ma.group(2) == mb.group(2) and out != "1":
+        return ("oracle:same-authority-not-same-host", "sameUrlHosts(%r, %r) = %s although the authorities are identical" % (a, b, out))
+    return None
+
+
+def unit_stage(res, tier):
+    try:
+        exe = build_unit()
+    except hbuild.BuildError as ex:
+        res.fail("build", "C20: unit harness no longer builds against /repo's working tree: %s" % str(ex)[-1200:],
+                 {"no_failing_input_found": True, "broken": "harness build h_purge", "detail": str(ex)[-3000:]})
+        return
+    runner = coq.build_runner("purge")
+    rng = random.Random(common.seed() * 1000003 + 2020)
+    cases = std.load_corpus(PID) + gen_unit_cases(rng, 6000 if tier == "quick" else 200000)
+    impl = corr.run_lines(exe, cases)
+    model = corr.run_lines(runner, cases)
+    for c, a in zip(cases, impl):
+        res.count_case(c, nontrivial=True, kind="unit:" + c.split()[0].split(".")[1] + (":" + a if a in ("0", "1") else ""))
+    found = 0
+    for c, o in zip(cases, impl):
+        v = unit_oracle(c, o)
+        if v and res.fail(v[0], "C20 on input `%s`: implementation answered `%s`: %s" % (c, o, v[1]),
+                          {"case": c, "impl": o, "oracle": v[1], "signature": v[0]}):
+            found += 1
+    dis = corr.diff(cases, impl, model)
+    res.extra["unit_cases"] = len(cases)
+    res.extra["unit_disagreements"] = len(dis)
+    if dis and not found:
+        k, c, a, b = dis[0]
+        res.fail("corr:unit:" + c.split()[0],
+                 "model and implementation disagree on %d unit cases (first: `%s` impl=`%s` model=`%s`)" % (len(dis), c[:300], a[:150], b[:150]),
+                 {"no_failing_input_found": True, "broken": "correspondence PurgeModel string/URI helpers vs harness/h_purge.cc",
+                  "case": c, "impl": a, "model": b, "disagreements": len(dis)})
+
+
 def run(res, tier):
     res.rule = ("per scenario three URLs are cached through the real squid and verified to be hits (U and V on one host name of the "
                 "origin stub, W on another name of the same stub); then a random method (POST/PUT/DELETE, unknown extension "
@@ -290,3 +414,8 @@ def run(res, tier):
                 to_case=to_case, oracle=oracle, corr_name="PurgeModel (refetched) vs the running squid",
                 n_quick=260, n_thorough=5000, seed_salt=20, kind_fn=kind, nontrivial_fn=nontrivial)
     _state.clear()
+    res.rule += ("; unit level: 6000 (quick) generated inputs for sameUrlHosts (URL pairs from scheme/separator/authority/path "
+                 "pieces with single-character mutations), urlIsRelative, Uri::Encode(PathChars) (random bytes) and the "
+                 "copy + path()/addRelativePath() + absolute() sequence of purgeEntriesByHeader with a cold and a warm absolute_ "
+                 "cache, real code (harness/h_purge.cc, sameUrlHosts cut out of the working tree's Client.cc) vs extracted model")
+    unit_stage(res, tier)
